@@ -5,7 +5,7 @@
 # property's quick check (and any extra ones) against /repo with the patch applied, and undoes it.
 set -u
 P=$1; K=$2; shift 2
-SRC=/tmp/seed/$P/out/change$K
+SRC=${SEEDROOT:-/tmp/seed}/$P/out/change$K
 [ -f "$SRC/patch.diff" ] || { echo "no $SRC/patch.diff"; exit 2; }
 WT=/tmp/seedverify-$P-$K
 git -C /repo worktree remove --force "$WT" 2>/dev/null
@@ -27,7 +27,7 @@ done
 [ $base_ok = 1 ] && echo "baseline with change: pass (x2)" || { echo "baseline with change: FAILS:"; cat /tmp/seedbase.1 /tmp/seedbase.2 | sort -u; }
 # demo: find *_test.go files in the change dir and the package they say they belong to
 demo_with=unknown; demo_without=unknown
-for f in "$SRC"/*_test.go "$SRC"/demo/*_test.go; do
+for f in "$SRC"/*_test.go "$SRC"/demo/*_test.go "$SRC"/*/*_test.go; do
   [ -f "$f" ] || continue
   pkg=$(grep -m1 '^package ' "$f" | awk '{print $2}')
   case "$pkg" in
